@@ -639,9 +639,9 @@ def jobs_for(tier):
     T = tier == "thorough"
     jobs = []
 
-    def one(part, combos, wmode):
+    def one(part, combos, wmode, d="s"):
         for a, o in sorted(combos, key=by_size):
-            jobs.append((part, {"cfg": "default", "tree": [cmd(a, o)]}, wmode, "direct"))
+            jobs.append((part, {"cfg": "default", "tree": [cmd(a, o, d=d)]}, wmode, "direct"))
 
     A0, A1, A2 = arg_seqs(ARG_IDS, 0), arg_seqs(ARG_IDS, 1), arg_seqs(ARG_IDS, 2)
     O0, O1, O2 = opt_sets(OPT_IDS, 0), opt_sets(OPT_IDS, 1), opt_sets(OPT_IDS, 2)
@@ -657,7 +657,7 @@ def jobs_for(tier):
         cross = [(a, o) for a in A2 for o in O1] + [(a, o) for a in A1 for o in O2 if len(o) == 2]
     else:
         cross = [(a, o) for a in A2 for o in O0] + [(a, o) for a in A1 for o in O1 if o] + [(a, o) for a in A0 for o in O2 if len(o) == 2]
-    one("widths", cross, "all")
+    one("widths", cross, "all", d="l")  # with a manual: DESCRIPTION paragraphs are wrapped at every width too
     # globals: application kind x extra global options (x a global argument) x small command parameters
     if T:
         small = [(a, o) for a in arg_seqs(ARG_SMALL, 1) for o in opt_sets(OPT_SMALL, 1)]
